@@ -83,7 +83,7 @@ func VH_C31_stream() {
 		written = append(written, chunk...)
 	}
 	var got []byte
-	for step := 0; step < 8 && len(got) < len(written); step++ {
+	for step := 0; step < len(written)+nw && len(got) < len(written); step++ { // every Read of outstanding data yields at least one byte
 		buf := make([]byte, sym.Range("rlen", 1, sym.Param("RLEN", 4)))
 		n, err := r.Read(buf)
 		sym.Assert(err == nil, "Read succeeds while written data is outstanding")
